@@ -97,6 +97,8 @@ def search(chk, r, n):
         w = float(np.power(np.array([1.51]), 2)[0] * np.power(np.array([kc]), 2)[0])
         for f in (0.75, 1.0, 1.3):
             plan.append((1.51, kc, "c", w * f if f != 1.0 else w, ("ZM-VFNS", 4)))
+    # fixed-flavour schemes below the mass of a quark that NfFF declares active: still NfFF
+    plan += [(1.51, 1.0, "c", 1.5, ("FFNS", 4)), (1.51, 1.0, "b", 10.0, ("FFNS", 5)), (1.51, 2.0, "c", 1.5, ("FONLL-FFNS", 4))]
     for _ in range(n):
         mc = float(r.choice([1.51, 1.3, 2.0]))
         kc = float(r.choice([1.0, 2.0, 0.7]))
@@ -225,6 +227,35 @@ def search_reused_card(chk, r, n):
         chk.search_case("scheme_after_scheme_same_card", not bad, what=f"{name}: ZM-VFNS run from a card first used for {first} NfFF={nfff} differs from the fresh-card run at Q2={bad}", data=sample, sample=sample if i == 0 else None, nontrivial=True)
 
 
+def search_single_flavour_share(chk, r, n):
+    """a flavour-tagged massless observable is the tagged quark's share of the light structure
+    function with the *same* nf: in photon exchange its gluon row is e_h^2 / sum_{q <= nf} e_q^2 of the
+    gluon row of F_light (nf from the thresholds, or NfFF), at every order computed"""
+    e2 = {q_: (4 / 9 if q_ % 2 == 0 else 1 / 9) for q_ in range(1, 7)}
+    plans = [("ZM-VFNS", 4, "charm", 100.0), ("ZM-VFNS", 4, "charm", 1e5), ("ZM-VFNS", 4, "bottom", 1e5), ("FFNS", 5, "charm", 30.0), ("ZM-VFNS", 4, "charm", 10.0)]
+    g = realrun.BASIS.index(21)
+    for i in range(n):
+        fns, nfff, fl, Q2 = plans[i % len(plans)]
+        kind = ["F2", "FL"][(i // len(plans)) % 2]
+        ih = {"charm": 4, "bottom": 5}[fl]
+        nf = nfff if fns != "ZM-VFNS" else 3 + sum(1 for m_ in (1.51, 4.92, 172.5) if m_ * m_ <= Q2)
+        names = [f"{kind}_light", f"{kind}_{fl}"]
+        try:
+            out = realrun.run(cards.theory(PTO=1, FNS=fns, NfFF=nfff), cards.obs({n_: [dict(x=0.1, Q2=Q2)] for n_ in names}, prDIS="EM", interpolation_xgrid=cards.default_grid(8, 1e-2)))
+        except Exception as e:
+            chk.extra.setdefault("search_exceptions", {})
+            k = f"share:{type(e).__name__}:{str(e)[:80]}"
+            chk.extra["search_exceptions"][k] = chk.extra["search_exceptions"].get(k, 0) + 1
+            continue
+        a = np.asarray(out[names[0]][0].orders[(1, 0, 0, 0)][0])[g]
+        b = np.asarray(out[names[1]][0].orders[(1, 0, 0, 0)][0])[g]
+        tot = sum(e2[q_] for q_ in range(1, nf + 1))
+        d = float(np.abs(b * tot - a * e2[ih]).max())
+        sc = float(np.abs(a * e2[ih]).max())
+        sample = dict(kind=kind, FNS=fns, NfFF=nfff, flavour=fl, Q2=Q2, nf=nf, maxdiff=d, scale=sc, ratio=float(np.abs(b).max() * tot / max(np.abs(a).max() * e2[ih], 1e-300)))
+        chk.search_case("single_flavour_gluon_share", d <= 1e-10 * max(sc, 1e-300), what=f"{kind}_{fl} EM {fns} Q2={Q2} (nf={nf}): gluon row is {sample['ratio']:.4g} times e_h^2/sum e_q^2 of the gluon row of {kind}_light", data=sample, sample=sample if i == 0 else None, nontrivial=sc > 0)
+
+
 def search_point_nf(chk, r, n):
     """ZM-VFNS run with points on both sides of a matching scale: every order of every point
     (including the scale-variation entries, which carry P_qg ~ nf and beta0(nf)) equals the one of the
@@ -265,6 +296,7 @@ def run(tier):
     search_heavy_beta(chk, r, 8 if thorough else 3)
     search_inactive_rows(chk, r, 24 if thorough else 6)
     search_reused_card(chk, r, 4 if thorough else 2)
+    search_single_flavour_share(chk, r, 10 if thorough else 5)
     search_point_nf(chk, r, 6 if thorough else 2)
     chk.assumptions += [
         "thresholds are compared as exact rationals of the doubles the Runner built (m^2*k^2 in IEEE arithmetic); the formation of the product itself is compared to 2 ulp",
